@@ -529,6 +529,15 @@ C11_failed(prev, step) ==
   NewErrs(prev, step.obs, "expr") # {} =>
      \/ step.obs.wf = "failed"
      \/ prev.wf = "canceled" /\ step.obs.wf = "canceled"
+(* an accepted rerun resumes the workflow only if preparing the re-executions raised no expression error  *)
+(* (the retry policy of a task is evaluated when its new execution record is created): no expression    *)
+(* error of a task the rerun covers may stand while the workflow is resuming                            *)
+C11_rerun_failed(prev, step) ==
+  (step.call.op = "rerun" /\ step.ret = "ok" /\ step.obs.wf # "failed") =>
+     LET c == step.call
+         covered == IF Len(c.arg) > 0 THEN {c.arg[i][1] : i \in 1..Len(c.arg)}
+                    ELSE {prev.seq[i].id : i \in {j \in 1..Len(prev.seq) : prev.seq[j].term /\ prev.seq[j].st \in Abended}}
+     IN \A i \in 1..Len(step.obs.errs) : step.obs.errs[i].cls = "expr" => step.obs.errs[i].task \notin covered
 (* (an accepted rerun resumes the workflow; error entries of tasks it does not cover remain) *)
 C11_no_offer_after(h1, step) == (step.obs.q /\ HasErr(step.obs, "expr") /\ ~h1.rerun) => step.obs.offers = << >>
 
@@ -651,7 +660,10 @@ C17_reject(prev, step) ==
   (step.call.op = "rerun" /\ step.ret # "ok") =>
      /\ step.ret \in Rejections
      /\ Persisted(step.obs) = Persisted(prev)
-C17_resuming(step) == (step.call.op = "rerun" /\ step.ret = "ok") => step.obs.wf = "resuming"
+C17_resuming(step) == (step.call.op = "rerun" /\ step.ret = "ok") =>
+                         \/ step.obs.wf = "resuming"
+                         \* (preparing a re-execution raised an expression error: C11 owns that case)
+                         \/ step.obs.wf = "failed" /\ HasErr(step.obs, "expr")
 (* exactly the requested executions (and work that was still due) are offered; each requested one is *)
 C17_exact(d, h0, h1, step) ==
   (step.obs.q /\ h1.rerun /\ step.obs.wf \in {"running", "resuming"}) =>
@@ -782,6 +794,7 @@ Failing(d, h0, h1, prev, step) ==
   FP("C11", "C11_recorded_transition", C11_recorded_transition(d, h1, prev, step)) \cup
   FP("C11", "C11_recorded_render", C11_recorded_render(d, h0, prev, step)) \cup
   FP("C11", "C11_recorded_retry",  C11_recorded_retry(d, h1, prev, step)) \cup
+  FP("C11", "C11_rerun_failed",    C11_rerun_failed(prev, step)) \cup
   FP("C11", "C11_failed",          C11_failed(prev, step)) \cup
   FP("C11", "C11_no_offer_after",  C11_no_offer_after(h1, step)) \cup
   FP("C12", "C12_shape",           C12_shape(d, step)) \cup
